@@ -5,6 +5,10 @@ from a generated record sequence while a shadow list is captured at log time.  T
 (PenlogReader in every mode, the `hr` entry point in-process and as a subprocess) are then run on the
 file and on harness-derived containers (.gz, plain, plain without '<prio>' prefix, stdin) and their
 results are compared with list operations on the shadow list (vf/models/logmodel.py).
+
+Usage variations of the writer: a part of the logs is written while a second log file of the same process is open (write_pair: both
+files are judged, each against the records logged while it was open), and one log per shard list is a burst of some ten thousand
+records logged back-to-back while the writer thread does not get to run (write_burst).
 """
 
 from __future__ import annotations
@@ -35,14 +39,21 @@ TECHNIQUE = (
     "subprocess; --head/--tail/--reverse/--priority/--lines; .zst, .gz, plain, prefix-less, stdin file and pipe; .zst files of several zstd "
     "frames (logs of 2..4 runs of the real writer joined as `cat` does; the same bytes re-framed by the harness) and .gz files of several "
     "gzip members; one file, the same file "
-    "twice, several different files of different lengths incl. an empty one) are compared with list operations on the shadow list"
+    "twice, several different files of different lengths incl. an empty one) are compared with list operations on the shadow list. "
+    "Usage variations of the writer: two log files open at the same time in one process (handlers on the same logger or on two logger "
+    "trees, any order of opening/closing, each file judged separately against the records logged while it was open) and a burst of "
+    "some ten thousand records logged back-to-back in the schedule in which the writer thread does not run meanwhile; for these logs "
+    "the decompressed file itself is compared with the shadow list first (marker sequence), with a control run (the same records with "
+    "one open file / a short burst) that tells whether the situation matters"
 )
 LEVEL_TEXT = (
     "Exploration: some hundred (quick) to ten thousand (thorough) generated logs of length 0..3000 (arbitrary Unicode scalar "
     "values, control characters, newlines, lines up to 1 MiB, all seven levels, tags, exception traces) are written by the real "
     "writer and read back by the real reader and hr in every navigation mode; each result is compared with the corresponding "
     "slice of the shadow list. About a fifth of the logs is written by several runs whose .zst files are joined; every log is also "
-    "read from a .zst of several frames and a .gz of several members. Held means held on those logs and mode parameters."
+    "read from a .zst of several frames and a .gz of several members. About a third of the single-run logs is written while a second log "
+    "file of the same process is open (both files are read back and judged); one log per quick run (four per thorough run) is a burst of "
+    "26 000..110 000 records logged in one tight loop. Held means held on those logs and mode parameters."
 )
 LEVEL_NOTE = (
     "Trusted: the list model in vf/models/logmodel.py, the zstandard/gzip libraries used to derive the other containers from "
@@ -64,7 +75,16 @@ RULE = (
     "reverse and 'iteration with len(reader) asked after k delivered records' - forward, reverse, offset; the third history starts with "
     "that operation on a forward pass) and six hr invocations naming 2..4 different files (this log, up to three earlier logs of the shard "
     "with other lengths, a log without records; empty first / ascending / descending / random order; random containers) in tail, head, "
-    "plain and reverse mode with n from {default, 0, 1, shortest, shortest+1, between, longest, longest+3, random}"
+    "plain and reverse mode with n from {default, 0, 1, shortest, shortest+1, between, longest, longest+3, random}. "
+    "Two logs open at the same time (40% of the generated logs without run boundaries, five enumerated ones): a second log = (file level, logger, "
+    "0..40 record specs with markers from #id500000# on), mode same-logger (both handlers on 'gallia': a record logged while both are open "
+    "belongs into both files) | separate-loggers (second handler on the logger tree 'c17second'), event order = the log opened first gets "
+    "1..all of its events alone, the rest is merged at random with the events of the other one (either may be opened first; closing in "
+    "opening or in reverse order; optionally with points at which the harness waits until the writer threads have caught up: after every "
+    "event | at 1..5 points incl. just before the later log is opened | nowhere); the log itself gets its usual cases, the second one len + forward + hr forward + 9 sampled cases + one "
+    "history. Burst: one shard logs 26 000..35 000 (thorough: four shards, up to 110 000) record specs (no traces, no %-arguments) in one "
+    "loop of prepared calls with the interpreter's thread switch interval raised (writer thread starved; thorough: one burst free-running), "
+    "then len, forward, reverse, offset k, forward on another container, hr tail/head n<=60 and hr forward at 'critical'"
 )
 ASSUMPTIONS = [
     "text is any sequence of Unicode scalar values (no lone surrogates); every text starts with a unique marker '#id<i>#' and payloads/tags never contain '#id'",
@@ -81,6 +101,11 @@ ASSUMPTIONS = [
     "so is asking len(reader) while an iteration is in progress (a progress display): the iteration must still deliver its full slice",
     "several FILE arguments on one hr command line: the output is the concatenation of what each file yields alone with the same options "
     "(-n applies to every file separately)",
+    "'the produced compressed log' of a run is the file of one add_zst_log_handler .. remove_zst_log_handler lifetime; a process may have "
+    "several of them open at once (nested or parallel runs). A record belongs into a file iff it was logged while that handler was "
+    "installed, on a logger at or below the one the handler was attached to, at or above the file level (Python logging propagation)",
+    "a burst is judged like any other record sequence: every record logged is in the file, however far the writer thread is behind; "
+    "raising sys.setswitchinterval only selects one legal schedule of the producer and the writer thread",
 ]
 EXHAUSTIVE = {"quick": False, "thorough": False}
 EXHAUSTIVE_NOTE = "exhaustive sub-space: for the enumerated edge logs with <=3 records all thresholds 0..8 x modes x containers x n in {0..len+2, default} are run"
@@ -89,6 +114,10 @@ PY = "/venv/bin/python"
 METHODS = ["trace", "debug", "info", "notice", "warning", "error", "critical", "result", "exception", "log"]
 LEVEL_NAMES = ["trace", "debug", "info", "notice", "warning", "error", "critical"]
 LOGGER_NAMES = ["gallia.c17", "gallia.scanner.\u00fc7", "gallia.a.b.c"]
+# a second logger tree of the same process (its own log file handler is attached to SECOND_ROOT), for logs open at the same time
+SECOND_ROOT = "c17second"
+SECOND_LOGGER_NAMES = ["c17second", "c17second.run.\u00e4", "c17second.a.b"]
+SECOND_ID0 = 500_000  # markers of the records of the second log start here, so that a record in the wrong file is recognisable
 # "zst-frames" / "gz-members": the same decompressed bytes as a .zst of several zstd frames / a .gz of several gzip members
 READER_CONTAINERS = ["zst", "plain", "gz", "noprefix", "mixedprefix", "zst-frames", "gz-members"]
 HR_CONTAINERS = ["zst", "plain", "gz", "noprefix", "mixedprefix", "zst-frames", "gz-members", "stdin-file", "stdin-pipe"]
@@ -100,9 +129,15 @@ MARK = re.compile(r"#id(\d+)#")
 # interface
 def shards(tier: str, seed: int) -> list[dict[str, Any]]:
     n = 16
+    # "burst": that many records logged back-to-back in one tight loop (one shard in the quick tier: a burst is costly)
     if tier == "quick":
-        return [{"part": i, "parts": n, "logs": 26, "maxlen": 600, "sub": 6, "wall": 42.0} for i in range(n)]
-    return [{"part": i, "parts": n, "logs": 640, "maxlen": 3000, "sub": 40, "wall": 400.0} for i in range(n)]
+        out = [{"part": i, "parts": n, "logs": 26, "maxlen": 600, "sub": 6, "wall": 42.0} for i in range(n)]
+        out[5].update(burst=26000 + (seed * 3571) % 9000, logs=22)
+        return out
+    out = [{"part": i, "parts": n, "logs": 640, "maxlen": 3000, "sub": 40, "wall": 400.0} for i in range(n)]
+    for i, b in ((1, 24000), (5, 40000), (9, 64000), (13, 100000)):
+        out[i].update(burst=b + (seed * 3571) % 9000, burst_schedule="free-running" if i == 5 else "writer-starved")
+    return out
 
 
 def required_reach(tier: str) -> dict[str, int]:
@@ -146,6 +181,22 @@ def required_reach(tier: str) -> dict[str, int]:
             need[f"{base}.{cls}.one-part-per-record"] = 30
             need[f"{base}.{cls}.part-without-content"] = 30
             need[f"{base}.{cls}.first-part-without-content"] = 20
+    # two log files open at the same time in one process; a long burst of records logged back-to-back
+    need.update({
+        "writer.two-logs-open": 20, "writer.two-logs-open.same-logger": 6, "writer.two-logs-open.separate-loggers": 6,
+        "writer.two-logs-open.records-before-the-later-log-is-opened": 8, "writer.two-logs-open.records-while-both-are-open": 10,
+        "writer.two-logs-open.record-belongs-into-both-files": 4, "writer.two-logs-open.records-after-one-log-is-closed": 8,
+        "writer.two-logs-open.closed-in-opening-order": 4, "writer.two-logs-open.closed-in-reverse-order-(nested)": 4,
+        "writer.two-logs-open.judged-log-opened-second": 3, "writer.two-logs-open.second-log-has-records": 10,
+        "reader.second-of-two-open-logs": 60, "hr.second-of-two-open-logs": 40,
+        "writer.two-logs-open.later-log-opened-with-writer-of-the-earlier-idle-after-records": 5,
+        "writer.two-logs-open.with-waits-for-the-writer-threads": 8, "writer.two-logs-open.without-waits": 4,
+        "writer.burst": 1, "writer.burst.writer-starved": 1, "writer.burst.ge-20000-records": 1,
+        "writer.burst.writer-thread-behind-by-half-the-burst": 1, "reader.burst-log": 4, "hr.burst-log": 3,
+    })
+    if tier == "thorough":
+        need.update({"writer.burst": 4, "writer.burst.writer-starved": 3, "writer.burst.free-running": 1, "writer.burst.ge-20000-records": 4,
+                     "writer.burst.writer-thread-behind-by-half-the-burst": 3})
     for lv in LEVEL_NAMES:
         need[f"level.{lv}"] = 20
         need[f"file_level.{lv}"] = 1
@@ -295,7 +346,73 @@ def gen_logdef(rng: random.Random, maxlen: int, force_long: bool = False) -> dic
     if rng.random() < 0.22:
         lo = min(1, n)
         ld["runs"] = sorted(rng.randint(0, n) if rng.random() < 0.2 else rng.randint(lo, max(n - 1, lo)) for _ in range(rng.choice([1, 1, 1, 2, 3])))
+    elif not long_log and rng.random() < 0.4:
+        ld["pair"] = gen_pair(rng, n)
     return ld
+
+
+def gen_pair(rng: random.Random, n: int) -> dict[str, Any]:
+    """A second log file that is open at the same time as the log itself (a nested / parallel run of the same process with its own
+    add_zst_log_handler): its own record specs, file level and logger, and the order of all events of both logs.
+
+    mode 'same-logger': both file handlers are attached to the logger 'gallia' - every record logged while both are open belongs into
+    both files (each filtered by its own file level); mode 'separate-loggers': the second handler is attached to another logger tree and
+    gets the records logged there.  events: 'A+'/'A-' = the log itself is opened/closed, 'B+'/'B-' = the second log, 'a'/'b' = the next
+    record spec of the log itself / of the second log is logged, '~' = wait until the writer threads have caught up."""
+    mode = rng.choice(["same-logger", "separate-loggers"])
+    k = rng.randrange(10)
+    m = 0 if k == 0 else (rng.randint(1, 3) if k < 4 else rng.randint(4, 40))
+    second = {"file_level": rng.choices(LEVEL_NAMES, weights=[45, 20, 15, 5, 5, 5, 5])[0],
+              "logger": rng.choice(LOGGER_NAMES if mode == "same-logger" else SECOND_LOGGER_NAMES),
+              "specs": [gen_spec(rng, SECOND_ID0 + i) for i in range(m)]}
+    ea = ["A+"] + ["a"] * n + ["A-"]
+    eb = ["B+"] + ["b"] * m + ["B-"]
+    if rng.random() < 0.25:
+        ea, eb = eb, ea  # the second log is the one opened first
+    # the log opened first gets `cut` of its events alone (at least its opening, never its closing), then the rest of it is
+    # interleaved with the events of the other one: the two lifetimes overlap in every order of closing
+    r = rng.random()
+    cut = 1 if r < 0.2 else (len(ea) - 1 if r < 0.3 else rng.randint(1, len(ea) - 1))
+    events, rest = ea[:cut], ea[cut:]
+    w = rng.choice([0.2, 0.5, 0.5, 0.8, len(rest) / (len(rest) + len(eb))])
+    i = j = 0
+    while i < len(rest) or j < len(eb):
+        if j >= len(eb) or (i < len(rest) and rng.random() < w):
+            events.append(rest[i])
+            i += 1
+        else:
+            events.append(eb[j])
+            j += 1
+    # '~' = the harness waits here until the writer threads of the open files have caught up (the schedule "writer idle at this point")
+    r = rng.random()
+    if r < 0.35:
+        events = [x for e in events for x in (e, "~")]
+    elif r < 0.7:
+        for _ in range(rng.randint(1, 4)):
+            events.insert(rng.randint(1, len(events) - 1), "~")
+        if rng.random() < 0.6:
+            k = next(i for i, e in enumerate(events) if e in ("A+", "B+") and i > 0)  # just before the later log is opened
+            events.insert(k, "~")
+    return {"mode": mode, "second": second, "events": "".join(e if len(e) == 2 else e + " " for e in events)}
+
+
+def pair_events(pair: dict[str, Any]) -> list[str]:
+    ev = pair["events"]
+    return [ev[i:i + 2].strip() for i in range(0, len(ev), 2)]
+
+
+def gen_burst_logdef(seedstr: str, n: int, schedule: str = "writer-starved") -> dict[str, Any]:
+    """A long burst: n records (no exception traces, no %-arguments) that are logged back-to-back in one tight loop."""
+    rng = random.Random(seedstr)
+    specs = []
+    for i in range(n):
+        sp = gen_spec(rng, i)
+        sp.pop("exc", None)
+        sp.pop("args", None)
+        if sp["m"] == "exception":
+            sp["m"] = "error"
+        specs.append(sp)
+    return {"file_level": rng.choice(["trace", "trace", "debug"]), "logger": rng.choice(LOGGER_NAMES), "specs": specs, "burst": schedule}
 
 
 def simple_specs(methods: list[str], text: str = "msg") -> list[dict[str, Any]]:
@@ -337,6 +454,21 @@ def edge_logdefs(tier: str) -> list[dict[str, Any]]:
     out.append({"file_level": "trace", "logger": "gallia.c17", "specs": simple_specs(["notice", "trace", "error"]), "runs": [0]})
     out.append({"file_level": "info", "logger": "gallia.c17", "specs": simple_specs(["info", "debug", "trace", "warning", "debug"]), "runs": [1, 3]})
     out.append({"file_level": "trace", "logger": "gallia.c17", "specs": simple_specs([L[(i * 3) % 7] for i in range(120)]), "runs": [100, 119]})
+    # two log files open at the same time
+    def second(methods: list[str], logger: str, level: str = "trace") -> dict[str, Any]:
+        return {"file_level": level, "logger": logger, "specs": [dict(sp, i=SECOND_ID0 + sp["i"]) for sp in simple_specs(methods, "second")]}
+
+    out.append({"file_level": "trace", "logger": "gallia.c17", "specs": simple_specs(["info", "error", "debug"]),
+                "pair": {"mode": "separate-loggers", "second": second(["warning", "info"], "c17second"), "events": "A+a ~ B+b ~ a ~ b ~ B-a A-"}})
+    out.append({"file_level": "trace", "logger": "gallia.c17", "specs": simple_specs(["info", "notice"]),
+                "pair": {"mode": "same-logger", "second": second(["error"], "gallia.a.b.c", "info"), "events": "A+a B+b a A-B-"}})
+    out.append({"file_level": "debug", "logger": "gallia.a.b.c", "specs": simple_specs(["critical", "trace", "debug"]),
+                "pair": {"mode": "separate-loggers", "second": second(["debug", "trace", "error", "info"], "c17second.a.b"), "events": "B+b ~ A+a b ~ a b A-b a B-"}})
+    out.append({"file_level": "trace", "logger": "gallia.c17", "specs": simple_specs([L[(i * 3) % 7] for i in range(60)]),
+                "pair": {"mode": "separate-loggers", "second": second([L[(i * 5) % 7] for i in range(30)], "c17second.run.\u00e4"),
+                         "events": "A+" + "a " * 20 + "~ B+" + "a b ~ " * 30 + "B-" + "a " * 10 + "A-"}})
+    out.append({"file_level": "trace", "logger": "gallia.c17", "specs": simple_specs(["info"]),
+                "pair": {"mode": "same-logger", "second": second([], "gallia.c17"), "events": "A+B+a B-A-"}})
     out.append({"file_level": "trace", "logger": "gallia.c17", "specs": [
         {"i": 0, "m": "error", "text": " long lines ", "tags": None, "rep": ["line\n", (1 << 16) // 5]},
         {"i": 1, "m": "info", "text": " long astral ", "tags": None, "rep": ["\U0001f600", (1 << 20) if tier == "thorough" else (1 << 18)]},
@@ -416,8 +548,11 @@ def setup_process(ctx: Any, tz: str | None = None) -> None:
             return True
 
     sh = Shadow()
-    for name in LOGGER_NAMES:
+    for name in LOGGER_NAMES + SECOND_LOGGER_NAMES:
         get_logger(name).addFilter(sh)
+    # the second logger tree: every level enabled (as setup_logging does for 'gallia'), nothing handed on to the root logger
+    get_logger(SECOND_ROOT).setLevel(1)
+    get_logger(SECOND_ROOT).propagate = False
 
     def hook(args: Any) -> None:
         Env.thread_errors.append(f"{args.exc_type.__name__}: {args.exc_value}")
@@ -450,6 +585,53 @@ def run_segments(logdef: dict[str, Any]) -> list[list[dict[str, Any]]]:
     return [specs[a:b] for a, b in zip(cuts, cuts[1:])]
 
 
+def prepare_call(lg: Any, spec: dict[str, Any]) -> tuple[Any, tuple[Any, ...], dict[str, Any], dict[str, Any]]:
+    """One record spec -> (bound logger method, positional arguments, keyword arguments, shadow entry without time stamp).
+    Specs with an exception are not prepared (they need a live exception at call time): see emit_record."""
+    m = spec["m"]
+    fmt = text_of(spec)
+    args = tuple(spec["args"]) if spec.get("args") else ()
+    if args:
+        fmt = fmt.replace("%", "%%") + " v=%s n=%d"
+        text = fmt % args
+    else:
+        text = fmt
+    tags = spec.get("tags")
+    levelno = levelno_of(spec)
+    fn = lg.log if m == "log" else getattr(lg, m)
+    pre = (levelno,) if m == "log" else ()
+    entry = {"id": spec["i"], "text": text, "levelno": levelno, "prio": M.PRIO_OF_LEVELNO[levelno],
+             "tags": ["result"] if m == "result" else (list(tags) if tags is not None else None), "trace": None}
+    return fn, (*pre, fmt, *args), {"extra": {"tags": list(tags)} if tags is not None else None}, entry
+
+
+def emit_record(lg: Any, spec: dict[str, Any]) -> dict[str, Any]:
+    """Log one record spec through the logger `lg`; return its shadow entry (time stamp taken from the Shadow filter)."""
+    fn, pos, kw, entry = prepare_call(lg, spec)
+    n0 = len(Env.created)
+    if spec.get("exc"):
+        try:
+            _Raise.go(spec["exc"], int(spec["exc"].get("depth", 0)))
+        except Exception:
+            trace = "".join(traceback.format_exception(*sys.exc_info()))
+            if trace.endswith("\n"):
+                trace = trace[:-1]
+            entry["trace"] = trace
+            if spec["m"] == "exception":
+                fn(*pos, **kw)
+            else:
+                fn(*pos, exc_info=True, **kw)
+    else:
+        fn(*pos, **kw)
+    if len(Env.created) != n0 + 1:
+        raise RuntimeError(f"shadow capture out of step: {len(Env.created) - n0} stamps for one record")
+    created, lno = Env.created[-1]
+    if lno != entry["levelno"]:
+        raise RuntimeError("shadow capture out of step (level)")
+    entry["created"] = created
+    return entry
+
+
 def write_log(logdef: dict[str, Any], paths: list[Path]) -> list[dict[str, Any]]:
     """Log the specs through gallia's logger + zstd handler, one handler lifetime and one file per run; return the shadow list."""
     from gallia.log import Loglevel, add_zst_log_handler, get_logger, remove_zst_log_handler
@@ -464,46 +646,166 @@ def write_log(logdef: dict[str, Any], paths: list[Path]) -> list[dict[str, Any]]
         handler = add_zst_log_handler("gallia", path, Loglevel(M.LEVELNO[logdef["file_level"]]))
         try:
             for spec in segment:
-                m = spec["m"]
-                fmt = text_of(spec)
-                args = tuple(spec["args"]) if spec.get("args") else ()
-                if args:
-                    fmt = fmt.replace("%", "%%") + " v=%s n=%d"
-                    text = fmt % args
-                else:
-                    text = fmt
-                tags = spec.get("tags")
-                extra = {"tags": list(tags)} if tags is not None else None
-                levelno = levelno_of(spec)
-                trace = None
-                fn = lg.log if m == "log" else getattr(lg, m)
-                pre = (levelno,) if m == "log" else ()
-                if spec.get("exc"):
-                    try:
-                        _Raise.go(spec["exc"], int(spec["exc"].get("depth", 0)))
-                    except Exception:
-                        trace = "".join(traceback.format_exception(*sys.exc_info()))
-                        if trace.endswith("\n"):
-                            trace = trace[:-1]
-                        if m == "exception":
-                            fn(*pre, fmt, *args, extra=extra)
-                        else:
-                            fn(*pre, fmt, *args, exc_info=True, extra=extra)
-                else:
-                    fn(*pre, fmt, *args, extra=extra)
-                shadow.append({
-                    "id": spec["i"], "text": text, "levelno": levelno, "prio": M.PRIO_OF_LEVELNO[levelno],
-                    "tags": ["result"] if m == "result" else (list(tags) if tags is not None else None), "trace": trace, "run": run_no,
-                })
+                entry = emit_record(lg, spec)
+                entry["run"] = run_no
+                shadow.append(entry)
         finally:
             remove_zst_log_handler("gallia", handler)
     if len(Env.created) != len(shadow):
         raise RuntimeError(f"shadow capture out of step: {len(Env.created)} stamps for {len(shadow)} records")
-    for e, (created, lno) in zip(shadow, Env.created):
-        if lno != e["levelno"]:
-            raise RuntimeError("shadow capture out of step (level)")
-        e["created"] = created
     return shadow
+
+
+class _Quiet:
+    """sys.stderr replacement while records are written: the logging module reports its own errors there."""
+
+    def __init__(self) -> None:
+        self.head = ""
+        self.chars = 0
+
+    def write(self, s: str) -> int:
+        self.chars += len(s)
+        if len(self.head) < 1500:
+            self.head += s[:1500]
+        return len(s)
+
+    def flush(self) -> None:
+        pass
+
+
+def settle(handlers: Any) -> None:
+    """Wait (bounded) until the writer threads of these log file handlers have handled everything logged so far.  Only selects a
+    schedule; where the handler does not show its queue the harness just sleeps a little."""
+    for h in handlers:
+        q = getattr(getattr(h, "queue_listener", None), "queue", None)
+        if q is None or not hasattr(q, "unfinished_tasks"):
+            time.sleep(0.003)
+            continue
+        end = time.monotonic() + 2.0
+        while q.unfinished_tasks and time.monotonic() < end:
+            time.sleep(0.0003)
+
+
+def _under(logger_name: str, root: str) -> bool:
+    return logger_name == root or logger_name.startswith(root + ".")
+
+
+def write_pair(logdef: dict[str, Any], path_a: Path, path_b: Path) -> tuple[list[dict[str, Any]], list[dict[str, Any]], dict[str, Any]]:
+    """Two log files that are open at the same time, written in the event order of logdef['pair'] -> (shadow list of the log itself,
+    shadow list of the second log, facts for the reach counters).  A record belongs into a file iff it was logged while the file's
+    handler was installed, on a logger at or below the one the handler is attached to (Python's logging propagation)."""
+    from gallia.log import Loglevel, add_zst_log_handler, get_logger, remove_zst_log_handler
+
+    pair = logdef["pair"]
+    sec = pair["second"]
+    root = {"A": "gallia", "B": "gallia" if pair["mode"] == "same-logger" else SECOND_ROOT}
+    lgname = {"A": logdef["logger"], "B": sec["logger"]}
+    lg = {k: get_logger(v) for k, v in lgname.items()}
+    level = {"A": Loglevel(M.LEVELNO[logdef["file_level"]]), "B": Loglevel(M.LEVELNO[sec["file_level"]])}
+    path = {"A": path_a, "B": path_b}
+    todo = {"A": iter(logdef["specs"]), "B": iter(sec["specs"])}
+    shadow: dict[str, list[dict[str, Any]]] = {"A": [], "B": []}
+    handler: dict[str, Any] = {}
+    facts = {"before": 0, "during_own": 0, "during_other": 0, "after": 0, "closed_first": "", "opened_first": "", "idle_at_second_open": False}
+    seen_both = False
+    settled_with = -1  # number of records logged when the writer threads were last waited for
+    logged = 0
+    Env.created.clear()
+    Env.thread_errors.clear()
+    errors: list[BaseException] = []
+    try:
+        for ev in pair_events(pair):
+            if ev == "~":
+                settle(handler.values())
+                settled_with = logged
+            elif ev in ("A+", "B+"):
+                if len(handler) == 1 and settled_with == logged and any(shadow[k] for k in handler):
+                    facts["idle_at_second_open"] = True  # the open file has records and its writer thread has handled all of them
+                handler[ev[0]] = add_zst_log_handler(root[ev[0]], path[ev[0]], level[ev[0]])
+                facts["opened_first"] = facts["opened_first"] or ev[0]
+                seen_both = seen_both or len(handler) == 2
+            elif ev in ("A-", "B-"):
+                facts["closed_first"] = facts["closed_first"] or ev[0]
+                remove_zst_log_handler(root[ev[0]], handler.pop(ev[0]))
+            else:
+                src = ev.upper()
+                entry = emit_record(lg[src], next(todo[src]))
+                entry["run"] = 0
+                logged += 1
+                for k in handler:
+                    if _under(lgname[src], root[k]):
+                        shadow[k].append(entry)
+                        if len(handler) == 2:
+                            facts["during_own" if k == src else "during_other"] += 1
+                        else:
+                            facts["after" if seen_both else "before"] += 1
+    finally:
+        for k in list(handler):
+            try:
+                remove_zst_log_handler(root[k], handler.pop(k))
+            except Exception as e:  # the other file is closed all the same
+                errors.append(e)
+    if errors:
+        raise errors[0]
+    if next(todo["A"], None) is not None or next(todo["B"], None) is not None:
+        raise RuntimeError("pair events do not log every record spec")
+    return shadow["A"], shadow["B"], facts
+
+
+def write_burst(logdef: dict[str, Any], path: Path) -> tuple[list[dict[str, Any]], dict[str, Any]]:
+    """All records of the log in one tight loop (every call prepared beforehand, nothing awaited, no harness work in between)
+    -> (shadow list, facts).  facts['backlog'] = the largest number of records seen waiting for the writer thread (sampled).
+
+    logdef['burst'] == 'writer-starved': the schedule in which the writer thread does not get to run while the burst is logged (a
+    legal schedule of the two threads - a busy producer, a writer blocked on a slow disk); the harness selects it by raising the
+    interpreter's thread switch interval for the duration of the loop, so the situation does not depend on the load of the machine.
+    'free-running': the threads are scheduled as usual."""
+    from gallia.log import Loglevel, add_zst_log_handler, get_logger, remove_zst_log_handler
+
+    lg = get_logger(logdef["logger"])
+    calls = [prepare_call(lg, spec) for spec in logdef["specs"]]
+    Env.created.clear()
+    Env.thread_errors.clear()
+    quiet = _Quiet()
+    backlog = -1
+    handler = add_zst_log_handler("gallia", path, Loglevel(M.LEVELNO[logdef["file_level"]]))
+    try:
+        waiting = handler.queue_listener.queue.qsize  # only for the reach counter: how far the writer thread is behind
+        waiting()
+    except Exception:
+        waiting = None
+    real_stderr = sys.stderr
+    sys.stderr = quiet  # type: ignore[assignment]
+    t0 = time.monotonic()
+    interval = sys.getswitchinterval()
+    try:
+        if logdef["burst"] == "writer-starved":
+            sys.setswitchinterval(60.0)
+        i = 0
+        for fn, pos, kw, _ in calls:
+            fn(*pos, **kw)
+            i += 1
+            if not i & 511 and waiting is not None:
+                backlog = max(backlog, waiting())
+        if waiting is not None:
+            backlog = max(backlog, waiting())
+        t1 = time.monotonic()
+    finally:
+        sys.setswitchinterval(interval)
+        try:
+            remove_zst_log_handler("gallia", handler)
+        finally:
+            sys.stderr = real_stderr
+    if len(Env.created) != len(calls):
+        raise RuntimeError(f"shadow capture out of step: {len(Env.created)} stamps for {len(calls)} records")
+    shadow = []
+    for (_, _, _, entry), (created, lno) in zip(calls, Env.created):
+        if lno != entry["levelno"]:
+            raise RuntimeError("shadow capture out of step (level)")
+        entry["created"] = created
+        entry["run"] = 0
+        shadow.append(entry)
+    return shadow, {"backlog": backlog, "burst_s": round(t1 - t0, 3), "stderr_chars": quiet.chars, "stderr_head": quiet.head[:600]}
 
 
 # ---------------------------------------------------------------------------------------------
@@ -570,19 +872,41 @@ class LogState:
         self.dir: Path | None = None
         self.runs = 1  # number of runs of the real writer whose files were joined into paths["zst"]
         self.parts: dict[str, dict[str, Any]] = {}  # container -> how the file is divided into frames / members
+        self.situation = ""  # "two-logs-open": written while another log file of this process was open; "burst": written in one tight loop
+        self.read = ""  # "second": this state describes the second log of logdef["pair"], not the log itself
+        self.second: LogState | None = None
+        self.alone: Any = None  # control: the same records written with no other log open (LogState, False = could not be built)
+        self.facts: dict[str, Any] = {}
 
     def witness_log(self) -> dict[str, Any]:
         specs = self.logdef["specs"]
+        extra = {"read": self.read} if self.read else {}
         if len(specs) <= 150 or self.regen is None:
-            return self.logdef
+            return dict(self.logdef, **extra)
         return {"file_level": self.logdef["file_level"], "logger": self.logdef["logger"], "regen": self.regen,
-                "n_specs": len(specs), "specs_head": specs[:5]}
+                "n_specs": len(specs), "specs_head": specs[:5], **extra}
+
+
+class _NullCtx:
+    """Collector for control experiments (a log written once more in another way): nothing is counted or reported."""
+
+    tier = "quick"
+
+    def reach(self, *a: Any, **k: Any) -> None:
+        pass
+
+    def violation(self, *a: Any, **k: Any) -> None:
+        pass
+
+    case = trace = sample = evals = reach
+
+
+SITUATION_KEY = {"two-logs-open": "two-logs-open", "burst": "long-burst"}
 
 
 def build_log(ctx: Any, logdef: dict[str, Any], regen: dict[str, Any] | None = None) -> LogState | None:
-    """Write the log with the real writer and derive the other containers. None if the writer failed (reported)."""
-    import zstandard
-
+    """Write the log with the real writer and derive the other containers. None if the writer failed (reported).
+    A log with a 'pair' also writes the second log that is open at the same time; its state is left in `.second`."""
     from vf.runner import h64
 
     st = LogState(logdef, regen)
@@ -591,29 +915,140 @@ def build_log(ctx: Any, logdef: dict[str, Any], regen: dict[str, Any] | None = N
     d.mkdir(exist_ok=True)
     st.dir = d
     zst = d / "log.json.zst"
-    st.hash = h64(repr((logdef["file_level"], logdef["logger"], logdef["specs"], *([logdef["runs"]] if logdef.get("runs") else []))))
-    st.runs = len(run_segments(logdef))
+    st.hash = h64(repr((logdef["file_level"], logdef["logger"], logdef["specs"], *([logdef["runs"]] if logdef.get("runs") else []),
+                        *([logdef["pair"]] if logdef.get("pair") else []), *([logdef["burst"]] if logdef.get("burst") else []))))
+    st.runs = len(run_segments(logdef)) if not (logdef.get("pair") or logdef.get("burst")) else 1
     run_files = [zst] if st.runs == 1 else [d / f"run{r}.json.zst" for r in range(st.runs)]
+    st.situation = "two-logs-open" if logdef.get("pair") else ("burst" if logdef.get("burst") else "")
+    where = "writer/" + (SITUATION_KEY[st.situation] + "/" if st.situation else "")
+    shadow_b = None
+    facts: dict[str, Any] = {}
     try:
-        shadow = write_log(logdef, run_files)
+        if logdef.get("pair"):
+            Env.log_no += 1
+            d2 = Env.scratch / f"log{Env.log_no}"
+            d2.mkdir(exist_ok=True)
+            shadow, shadow_b, facts = write_pair(logdef, zst, d2 / "log.json.zst")
+        elif logdef.get("burst"):
+            shadow, facts = write_burst(logdef, zst)
+            st.facts = facts
+        else:
+            shadow = write_log(logdef, run_files)
     except RuntimeError:
         raise
     except Exception as e:
-        ctx.violation(f"writer/raises-{type(e).__name__}", f"logging a generated record sequence raises {type(e).__name__}",
+        ctx.violation(f"{where}raises-{type(e).__name__}", f"logging a generated record sequence raises {type(e).__name__}",
                       {"log": st.witness_log(), "error": repr(e)[:400]})
         return None
     if Env.thread_errors:
-        ctx.violation(f"writer/listener-thread/raises-{Env.thread_errors[0].split(':')[0]}", "the log writer thread died with an exception",
+        ctx.violation(f"{where}listener-thread/raises-{Env.thread_errors[0].split(':')[0]}", "the log writer thread died with an exception",
                       {"log": st.witness_log(), "error": Env.thread_errors[0][:400]})
-    st.all = M.written(shadow, M.LEVELNO[logdef["file_level"]])
+    if logdef.get("pair"):
+        pair = logdef["pair"]
+        ctx.reach("writer.two-logs-open")
+        ctx.reach(f"writer.two-logs-open.{pair['mode']}")
+        if facts["before"]:
+            ctx.reach("writer.two-logs-open.records-before-the-later-log-is-opened")
+        if facts["during_own"]:
+            ctx.reach("writer.two-logs-open.records-while-both-are-open")
+        if facts["during_other"]:
+            ctx.reach("writer.two-logs-open.record-belongs-into-both-files")
+        if facts["after"]:
+            ctx.reach("writer.two-logs-open.records-after-one-log-is-closed")
+        ctx.reach("writer.two-logs-open.closed-in-" + ("opening-order" if facts["closed_first"] == facts["opened_first"] else "reverse-order-(nested)"))
+        if facts["opened_first"] == "B":
+            ctx.reach("writer.two-logs-open.judged-log-opened-second")
+        if facts["idle_at_second_open"]:
+            ctx.reach("writer.two-logs-open.later-log-opened-with-writer-of-the-earlier-idle-after-records")
+        if "~" in pair["events"]:
+            ctx.reach("writer.two-logs-open.with-waits-for-the-writer-threads")
+        else:
+            ctx.reach("writer.two-logs-open.without-waits")
+        st2 = LogState(logdef, regen)
+        st2.read = "second"
+        st2.dir = d2
+        st2.situation = st.situation
+        st2.hash = h64(("second", st.hash))
+        if finish_log(ctx, st2, shadow_b or [], [d2 / "log.json.zst"], pair["second"]["file_level"], pair["second"]["specs"]):
+            st.second = st2
+            if st2.N:
+                ctx.reach("writer.two-logs-open.second-log-has-records")
+        else:
+            drop_log(st2)
+    if logdef.get("burst"):
+        ctx.reach("writer.burst")
+        ctx.reach(f"writer.burst.{logdef['burst']}")
+        n = len(logdef["specs"])
+        if n >= 20000:
+            ctx.reach("writer.burst.ge-20000-records")
+        if facts["backlog"] * 2 >= n:
+            ctx.reach("writer.burst.writer-thread-behind-by-half-the-burst")
+        if facts["backlog"] * 10 >= n * 9:
+            ctx.reach("writer.burst.writer-thread-behind-by-nine-tenths-of-the-burst")
+    if not finish_log(ctx, st, shadow, run_files, logdef["file_level"], logdef["specs"]):
+        drop_log(st)
+        return None
+    return st
+
+
+def content_failure(st: LogState) -> tuple[str, str] | None:
+    """The decompressed bytes of the file (harness side, zstandard library) hold the marker of every expected record once, in order?"""
+    got = [int(x) for x in MARK.findall(st.raw.decode("utf-8", "replace"))]
+    want = [e["id"] for e in st.all]
+    if got == want:
+        return None
+    pos = next((i for i, (g, w) in enumerate(zip(got, want)) if g != w), min(len(got), len(want)))
+    return (f"file-content/{M.classify(got, want)}",
+            f"{len(want)} records expected in the file, {len(got)} found; first difference at position {pos}: got ids {got[pos:pos + 12]} want {want[pos:pos + 12]}")
+
+
+def report_writer_failure(ctx: Any, st: LogState, kind: str, detail: str) -> None:
+    """The file left by the writer is wrong as such (before any reader is involved).  For a log written in a special situation a
+    control decides whether the situation is part of the mechanism."""
+    where = "writer/"
+    if st.situation and not isinstance(ctx, _NullCtx):
+        if st.situation == "two-logs-open":
+            control = written_alone(st)  # the same records with this file as the only open one
+            ok = control is not None and content_failure(control) is None
+        else:
+            # the first 5000 records of the same burst, written the same way
+            control = build_log(_NullCtx(), dict(st.logdef, specs=st.logdef["specs"][:5000]))
+            ok = control is not None
+            if control is not None:
+                drop_log(control)
+        if ok:
+            where += SITUATION_KEY[st.situation] + "/"
+    what = {"file-not-decodable": "the .zst file left by the writer cannot be decompressed"}.get(
+        kind, "the .zst file left by the writer does not hold exactly the records that were logged to it")
+    ctx.violation(where + kind, what, {"log": st.witness_log(), "detail": detail[:600], "records_expected": st.N, **({"burst": st.facts} if st.facts else {})})
+
+
+def finish_log(ctx: Any, st: LogState, shadow: list[dict[str, Any]], run_files: list[Path], file_level: str, specs: list[dict[str, Any]]) -> bool:
+    """Shadow list -> expected file content; decompress what the writer left and derive the other containers from it."""
+    import zstandard
+
+    logdef = {"file_level": file_level}
+    d = st.dir
+    assert d is not None
+    zst = d / "log.json.zst"
+    st.all = M.written(shadow, M.LEVELNO[file_level])
     st.N = len(st.all)
     if len(shadow) != st.N:
         ctx.reach("log.file_level_drops")
     run_raw = []
     for rf in run_files:
-        with zstandard.open(rf, "rb") as f:
-            run_raw.append(f.read())
+        try:
+            with zstandard.open(rf, "rb") as f:
+                run_raw.append(f.read())
+        except (zstandard.ZstdError, OSError, EOFError) as e:
+            report_writer_failure(ctx, st, "file-not-decodable", repr(e))
+            return False
     st.raw = b"".join(run_raw)
+    if st.situation:
+        bad = content_failure(st)
+        if bad is not None:
+            report_writer_failure(ctx, st, *bad)
+            return False
     if st.runs > 1:
         # `cat run0.json.zst run1.json.zst ... > log.json.zst`: one zstd frame per run, decodes to the concatenation (RFC 8878, 3.1)
         zst.write_bytes(b"".join(rf.read_bytes() for rf in run_files))
@@ -666,18 +1101,22 @@ def build_log(ctx: Any, logdef: dict[str, Any], regen: dict[str, Any] | None = N
                 ctx.reach("text.astral")
             if '"' in t or "\\" in t:
                 ctx.reach("text.json_special")
-    for spec in logdef["specs"]:
+    for spec in specs:
         if spec["m"] == "result":
             ctx.reach("method.result")
         if spec.get("args"):
             ctx.reach("method.args")
         if spec.get("exc"):
             ctx.reach("exc.exception" if spec["m"] == "exception" else "exc.exc_info")
-    return st
+    return True
 
 
 def drop_log(st: LogState) -> None:
-    if st.dir is not None:
+    for other in (st.alone, st.second):
+        if isinstance(other, LogState):
+            drop_log(other)
+    st.alone = st.second = None
+    if st.dir is not None and st.dir.is_dir():
         for p in st.dir.iterdir():
             try:
                 p.unlink()
@@ -1101,6 +1540,20 @@ def reach_parts(ctx: Any, base: str, st: LogState, container: str) -> None:
         ctx.reach(f"{base}.{cls}.frame-without-content-size")
 
 
+def written_alone(st: LogState) -> LogState | None:
+    """Control for a log written while a second one was open: the records expected in this file, logged once more (one handler, no
+    other log file open).  Built once per log and kept until the log is dropped."""
+    if st.alone is None:
+        ld = st.logdef
+        by_id = {sp["i"]: sp for sp in ld["specs"] + ld["pair"]["second"]["specs"]}
+        level = ld["pair"]["second"]["file_level"] if st.read == "second" else ld["file_level"]
+        try:
+            st.alone = build_log(_NullCtx(), {"file_level": level, "logger": LOGGER_NAMES[0], "specs": [by_id[e["id"]] for e in st.all]}) or False
+        except Exception:
+            st.alone = False
+    return st.alone or None
+
+
 def cand_ident(cand: dict[str, Any]) -> tuple[Any, ...]:
     return tuple(sorted((k, str(v)) for k, v in cand.items()))
 
@@ -1174,8 +1627,29 @@ def run_case(ctx: Any, st: LogState, cand: dict[str, Any]) -> None:
         pv = evaluate(st, pc, execute(st, pc))
         if pv is None or pv[0] != k:
             suffix = "/only-zst-of-several-runs"
+    if not suffix and st.situation == "two-logs-open":
+        # is the second log file that was open at the same time part of the mechanism?  The records expected in this file, logged once
+        # more with this file as the only open one: the same question asked there
+        alone = written_alone(st)
+        if alone is not None:
+            ac = dict(cand, component=inproc)
+            av = evaluate(alone, ac, execute(alone, ac))
+            if av is None or av[0] != k:
+                suffix = "/only-with-two-logs-open"
+    elif not suffix and st.situation == "burst" and "k" not in cand:
+        # is the burst part of the mechanism?  The first and the last 150 records of the same log, written record by record: the same question there
+        if st.alone is None:
+            try:
+                st.alone = build_log(_NullCtx(), {"file_level": st.logdef["file_level"], "logger": st.logdef["logger"], "specs": st.logdef["specs"][:150] + st.logdef["specs"][-150:]}) or False
+            except Exception:
+                st.alone = False
+        if st.alone:
+            ac = dict(cand, component=inproc)
+            av = evaluate(st.alone, ac, execute(st.alone, ac))
+            if av is None or av[0] != k:
+                suffix = "/only-in-long-burst"
     ctx.violation(k + suffix, what, {"log": st.witness_log(), "case": cand, "argv": res.get("argv"), "detail": detail[:600],
-                                      "n_records_in_file": st.N})
+                                      "n_records_in_file": st.N, **({"burst": st.facts} if st.facts else {})})
 
 
 # ---------------------------------------------------------------------------------------------
@@ -1568,8 +2042,52 @@ def process_log(ctx: Any, rng: random.Random, logdef: dict[str, Any], regen: dic
             run_history(ctx, st, rng)
         run_history(ctx, st, rng, lead="iter-len")
         run_multi_files(ctx, st, rng)
+        if st.second is not None:
+            process_second(ctx, rng, st.second)
     finally:
+        if st.second is not None:
+            drop_log(st.second)
+            st.second = None
         retire_log(st)
+
+
+def process_second(ctx: Any, rng: random.Random, st: LogState) -> None:
+    """The second log of a pair (open at the same time as the log itself) is judged on its own: complete forward pass, count, and a
+    sample of the other cases."""
+    cands = plan(rng, st, 45, False)
+    fixed = [{"component": "reader", "container": "zst", "mode": "len"}, {"component": "reader", "container": "zst", "mode": "forward", "p": 8},
+             {"component": "hr", "container": "zst", "mode": "forward", "pspec": "trace"}]
+    rest = [c for c in cands if c not in fixed]
+    for cand in fixed + rng.sample(rest, min(9, len(rest))):
+        run_case(ctx, st, cand)
+        ctx.reach("reader.second-of-two-open-logs" if cand["component"] == "reader" else "hr.second-of-two-open-logs")
+    run_history(ctx, st, rng)
+
+
+def process_burst(ctx: Any, rng: random.Random, seedstr: str, n: int, schedule: str) -> None:
+    """One log of n records logged in one tight loop; read back completely in the principal modes."""
+    st = build_log(ctx, gen_burst_logdef(seedstr, n, schedule), {"burst_seedstr": seedstr, "n": n, "schedule": schedule})
+    if st is None:
+        return
+    try:
+        N = st.N
+        ctx.sample({"burst": True, "records_logged": n, "records_in_file": N, "raw_bytes": len(st.raw), **st.facts}, force=True)
+        cands: list[dict[str, Any]] = [
+            {"component": "reader", "container": "zst", "mode": "len"},
+            {"component": "reader", "container": "zst", "mode": "forward", "p": 8},
+            {"component": "reader", "container": "zst", "mode": "reverse", "p": rng.choice([8, 8, 7, 6])},
+            {"component": "reader", "container": rng.choice(["plain", "gz", "zst-frames"]), "mode": "forward", "p": rng.randrange(3, 9)},
+            {"component": "hr", "container": "zst", "mode": "tail", "pspec": "trace", "n": rng.randint(1, 60)},
+            {"component": "hr", "container": "zst", "mode": "head", "pspec": rng.choice(["trace", "debug"]), "n": rng.randint(1, 60)},
+            {"component": "hr", "container": "zst", "mode": "forward", "pspec": "critical"},
+        ]
+        if N:
+            cands.insert(3, {"component": "reader", "container": "zst", "mode": "offset", "p": 8, "k": rng.randrange(-N, N)})
+        for cand in cands:
+            run_case(ctx, st, cand)
+            ctx.reach("reader.burst-log" if cand["component"] == "reader" else "hr.burst-log")
+    finally:
+        drop_log(st)
 
 
 # ---------------------------------------------------------------------------------------------
@@ -1581,6 +2099,8 @@ def run(ctx: Any, params: dict[str, Any]) -> None:
     Env.multi_sub_left = max(1, params["sub"] // 6)
     deadline = ctx.elapsed() + params["wall"]
     rng = ctx.rng
+    if params.get("burst"):
+        process_burst(ctx, rng, f"C17/{ctx.seed}/burst/{part}", params["burst"], params.get("burst_schedule", "writer-starved"))
     edges = edge_logdefs(ctx.tier)
     for i, ld in enumerate(edges):
         if i % parts == part:
@@ -1602,28 +2122,41 @@ def replay(ctx: Any, witness: dict[str, Any]) -> None:
     def expand(log: dict[str, Any]) -> dict[str, Any]:
         if "specs" not in log:
             g = log["regen"]
-            return gen_logdef(random.Random(g["seedstr"]), g["maxlen"], g.get("force_long", False))
+            if "burst_seedstr" in g:
+                return dict(gen_burst_logdef(g["burst_seedstr"], g["n"], g.get("schedule", "writer-starved")), read=log.get("read", ""))
+            return dict(gen_logdef(random.Random(g["seedstr"]), g["maxlen"], g.get("force_long", False)), read=log.get("read", ""))
         return log
 
+    def build(log: dict[str, Any]) -> tuple[LogState | None, LogState | None]:
+        """-> (state to drop afterwards, state that the witness reads: the log itself or the second log of its pair)"""
+        read = log.get("read", "")
+        top = build_log(ctx, {k: v for k, v in log.items() if k != "read"}, None)
+        return top, (top.second if top is not None and read == "second" else top)
+
     if "logs" in witness:  # several files on one hr command line
-        sts = [build_log(ctx, expand(x), None) for x in witness["logs"]]
+        built = [build(expand(x)) for x in witness["logs"]]
+        sts = [x[1] for x in built]
         try:
             if all(x is not None for x in sts):
                 cand = witness["case"]
                 run_multi_case(ctx, [(sts[i], c) for i, c in cand["files"]], cand)
         finally:
-            for x in sts:
+            for x, _ in built:
                 if x is not None:
                     drop_log(x)
         return
-    log = expand(witness["log"])
-    st = build_log(ctx, log, None)
+    top, st = build(expand(witness["log"]))
     if st is None:
+        if top is not None:
+            drop_log(top)
         return
     try:
+        if "case" not in witness and "history" not in witness:
+            return  # a failure of the writer itself: build() has reported it again
         if "history" in witness:
             run_history(ctx, st, ctx.rng, ops=witness["history"])
         else:
             run_case(ctx, st, witness["case"])
     finally:
-        drop_log(st)
+        assert top is not None
+        drop_log(top)
